@@ -1220,11 +1220,14 @@ func (g *c09gen) propsHistory() {
 		panic(fmt.Sprintf("c09: props prelude: %v %v", o.Err, o.Panic))
 	}
 	var u []uint16
-	for { // the text of the String object: no surrogates, no U+FFFD (those are classes 2 and 3)
+	for { // the text of the String object: no surrogates (class 2); U+FFFD is allowed since 66edf49
 		u = g.units(r.Intn(3), 6)
+		if r.Intn(6) == 0 && len(u) > 0 {
+			u[r.Intn(len(u))] = 0xFFFD
+		}
 		ok := true
 		for _, c := range u {
-			if c >= 0xD800 && c < 0xE000 || c == 0xFFFD {
+			if c >= 0xD800 && c < 0xE000 {
 				ok = false
 			}
 		}
@@ -1415,7 +1418,11 @@ func (g *c09gen) pinnedProps(u, opsCoq string, srcs []string) {
 	var obs, txt []string
 	for _, src := range srcs {
 		o := RunJS(vm, src)
-		obs = append(obs, cvalB(o))
+		if strings.HasPrefix(src, "K(") && o.Err == nil && o.Panic == nil && o.Val.IsString() {
+			obs = append(obs, keysRes(o.Val.String()))
+		} else {
+			obs = append(obs, cvalB(o))
+		}
 		txt = append(txt, src+" -> "+obsText(o))
 	}
 	g.env.Add(fmt.Sprintf("CProps %s %s %s", u, opsCoq, Clist(obs)), "pinned props "+strings.Join(txt, " ;; "), "pinned", true)
@@ -1500,6 +1507,10 @@ func runC09(env *Env) {
 	g.pinnedCall("MIndexOf", "RLit [233;97]", "[AStr [97]; ANum "+Cdouble(1)+"]", `"éa".indexOf("a",1)`)
 	g.pinnedCall("MCharAt", "RLit [97;55296;56320;98]", "[ANum "+Cdouble(1)+"]", "'a\U00010000b'.charAt(1)")
 	g.pinnedCall("MCharCodeAt", "RLit [65533;97]", "[ANum "+Cdouble(0)+"]", `"�a".charCodeAt(0)`)
+	g.pinnedCall("MIndex", "RLit [65533;97]", "[AStr [48]]", "'\uFFFDa'[0]")
+	g.pinnedCall("MIndex", "RStrObj [97;65533;98]", "[AStr [49]]", "new String('a\uFFFDb')[1]")
+	g.pinnedProps("[97;65533;98]", "[OHasOwn 1; OGet 1; OIn 1; OKeys; ODelete LS 1; OSet LS 1 (PNum 5); OGet 1; OGetPrim 1]",
+		[]string{"var s = new String('a\uFFFDb'); s.hasOwnProperty(1)", "s[1]", "1 in s", "K(Object.keys(s))", "delete s[1]", "s[1] = 5; undefined", "s[1]", "'a\uFFFDb'[1]"})
 	g.pinnedCall("MCharAt", "RNumR 5", "[ANum "+Cdouble(0)+"]", `String.prototype.charAt.call(5,0)`)
 	g.pinnedCall("MTrim", "RUndef", "[]", `String.prototype.trim.call(undefined)`)
 	g.pinnedCall("MSubstr", "RNull", "[ANum "+Cdouble(1)+"]", `String.prototype.substr.call(null,1)`)
